@@ -111,6 +111,22 @@ fn main() {
         ("not a and b", vec!["a", "b"], Exp::And(vec![Exp::Not(b(v("a"))), v("b")])),
         ("a xor b or c and d", vec!["a", "b", "c", "d"], Exp::Or(vec![Exp::Xor(b(v("a")), b(v("b"))), Exp::And(vec![v("c"), v("d")])])),
     ];
+    // identifiers that merely start with a keyword: followed by a letter, a digit or an underscore they are one name
+    let mut owned: Vec<(String, Vec<String>, Exp)> = Vec::new();
+    for kw in ["and", "or", "not", "xor", "implies", "iff", "true", "false", "in", "as", "for", "min", "max", "where", "define", "let", "solve"] {
+        for suffix in ["_x", "1", "q", "_1", "_and"] {
+            let id = format!("{kw}{suffix}");
+            owned.push((format!("{id} or b"), vec![id.clone(), "b".into()], Exp::Or(vec![v(&id), v("b")])));
+            owned.push((format!("b and not {id}"), vec![id.clone(), "b".into()], Exp::And(vec![v("b"), Exp::Not(b(v(&id)))])));
+        }
+    }
+    for (text, names, expect) in owned.iter() {
+        rep.count("sentences.checked");
+        match compile_objective(text, names) {
+            Ok(e) => if !exp_eq(&e, expect) { rep.fail(json!({"prop":"C09","kind":"documented-grouping-not-produced","class":"unclassified","input":text,"compiled":e.to_string(),"expected":expect.to_string()})); },
+            Err(msg) => rep.fail(json!({"prop":"C09","kind":"well-formed-expression-rejected","class":"unclassified","input":text,"message":msg.chars().take(200).collect::<String>()})),
+        }
+    }
     for (text, names, expect) in checks {
         let names: Vec<String> = names.iter().map(|s| s.to_string()).collect();
         rep.count("sentences.checked");
